@@ -31,6 +31,7 @@ KANI_FLAGS = [
 QUICK_N = {"C01": 20, "C04": 12, "C05": 12, "C08": 6, "C09": 12, "C10": 16, "C12": 8, "C13": 10, "C14": 8,
            "C15": 12, "C16": 40, "C17": 40, "C19": 6, "C20": 30, "C02": 6}
 TIMEOUT = {"quick": 240, "thorough": 900}
+NATIVE_TIMEOUT = 300
 
 ENV = dict(os.environ)
 ENV["CARGO_NET_OFFLINE"] = "true"
@@ -190,7 +191,15 @@ def native_replay(crate, harness, tests, log, profile_release=False):
         ENV["CARGO_TARGET_DIR"] = env_t + "_rel"
     ENV.update(rel_env)
     cmd += ["--", "--test-threads", "1", "playback_tests"]
-    rc, out = sh(cmd, cwd=crate, log=log, timeout=1200)
+    try:
+        rc, out = sh(cmd, cwd=crate, log=log, timeout=NATIVE_TIMEOUT)
+    except subprocess.TimeoutExpired:
+        # the native run of the solver's input did not finish: for C15 that IS the reproduction
+        ENV.pop("CARGO_TARGET_DIR", None)
+        for k in rel_env:
+            ENV.pop(k, None)
+        subprocess.run("pkill -9 -f pushr_verif_harness- || true", shell=True)
+        return {t["test_name"]: "timeout" for t in tests}, "native replay timed out after %ds" % NATIVE_TIMEOUT
     ENV.pop("CARGO_TARGET_DIR", None)
     for k in rel_env:
         ENV.pop(k, None)
@@ -261,6 +270,9 @@ def main():
     if not picked:
         print("INCONCLUSIVE: no harness for %s" % prop)
         return 2
+    # tool sanity obligations accompany every check
+    sanity = [h for h in meta["harnesses"] if h["property"] == "C00"]
+    picked = picked + sanity
     byname = {h["harness"]: h for h in picked}
     out_json = os.path.join(run_dir, "kani.json")
     timeout_s = TIMEOUT[tier]
@@ -287,6 +299,10 @@ def main():
             symex_s += r["stats"].get("runtime_symex_s") or 0
         if r["exit_status"] in ("timeout", "out_of_memory") or (r["status"] != "Success" and not r["failed"]):
             inconclusive.append((hn, r["exit_status"] or "tool failure"))
+            continue
+        if h["property"] == "C00":
+            if r["status"] != "Success":
+                inconclusive.append((hn, "TOOL SANITY FAILED: %s" % "; ".join(c["description"] for c in r["failed"])))
             continue
         if r["status"] == "Success":
             bad_cov = [c for c in r["covers"] if c[1] not in ("Satisfied", "Covered")]
@@ -338,6 +354,9 @@ def main():
         any_rep = False
         for t in wanted:
             dev, rel = rep_dev.get(t["test_name"]), rep_rel.get(t["test_name"])
+            if "timeout" in (dev, rel) and prop != "C15":
+                dev = None if dev == "timeout" else dev
+                rel = None if rel == "timeout" else rel
             if dev or rel:
                 any_rep = True
                 path = os.path.join(replay_dir, "%s__%s.json" % (hn.split("::")[-1], hashlib.sha1(t["check"].encode()).hexdigest()[:8]))
@@ -363,11 +382,11 @@ def main():
         r = res[hn]
         samples.append({"harness": hn, "description": h.get("sample"), "verdict": r["status"], "checks": r["n_checks"], "solver_s": (r["stats"] or {}).get("runtime_decision_procedure_s")})
     cov = {
-        "evaluations": len(picked),
+        "evaluations": len(picked) - len(sanity),
         "distinct_nontrivial": len(set(passed) | {k[0] for k in known_hits} | {v[0] for v in violations}),
         "rule": "one evaluation = one #[kani::proof] harness decided by CBMC over all symbolic contents of its concrete shapes; counted as distinct+non-trivial when it returned a verdict (UNSAT with its reachability cover satisfied, or a counterexample) - timeouts, vacuous and errored harnesses are not counted",
         "samples": samples or [{"harness": picked[0]["harness"], "description": picked[0].get("sample")}],
-        "obligations": len(picked),
+        "obligations": len(picked) - len(sanity),
         "discharged": len(passed),
         "harnesses_available": total,
         "harnesses_selected": len(picked),
